@@ -65,6 +65,7 @@ def r01_2(ctx, layers):
                 r.missing("%s::insert" % L.short)
                 continue
             r.analysed(f)
+            f = ctx.facts.loop_form(f)  # (`methods().filter(|m| !m.is_empty())` written out: the emptiness test is a path condition)
             s = Sym(f, copies=True)
             loops = for_loops(f)
             npaths = 0
